@@ -115,18 +115,33 @@ def rootrel_of(api: str) -> str:
 class Tree:
     """base/PKG/ is a python package; base/PKG/root is the served root; everything else is outside."""
 
-    def __init__(self, base: str):
+    def __init__(self, base: str, extra=(), drop=(), pkg: str = PKG):
+        """extra: further (id, path relative to the package dir, inside?) files; a file that cannot be created
+        (name clash with a directory, NUL, too long) is left out and listed in self.not_created.
+        drop: ids of TREE_FILES to leave out."""
         self.base = base
-        self.pkgdir = os.path.join(base, PKG)
+        self.pkg = pkg
+        self.pkgdir = os.path.join(base, pkg)
         self.root = os.path.join(self.pkgdir, "root")
         self.by_content = {}
-        for fid, rel, inside in TREE_FILES:
+        self.files = []
+        self.not_created = []
+        for fid, rel, inside in [f for f in TREE_FILES if f[0] not in drop] + list(extra):
             p = os.path.normpath(os.path.join(self.pkgdir, rel))
-            os.makedirs(os.path.dirname(p), exist_ok=True)
             content = f"FILE:{fid}\n".encode() if fid != 105 else b"# FILE:105\n"
-            with open(p, "wb") as f:
-                f.write(content)
+            try:
+                os.makedirs(os.path.dirname(p), exist_ok=True)
+                if os.path.lexists(p) and fid >= 200:
+                    raise FileExistsError(p)
+                with open(p, "wb") as f:
+                    f.write(content)
+            except (OSError, ValueError):
+                if fid < 200:
+                    raise
+                self.not_created.append(rel)
+                continue
             self.by_content[content] = fid
+            self.files.append((fid, rel, inside))
         # growth (a): symbolic links inside the root that point outside (observation only, never a verdict)
         for name, target in (("link.txt", "../secret.txt"), ("linkdir", "../rootx")):
             lp = os.path.join(self.root, name)
@@ -138,7 +153,7 @@ class Tree:
         """the tree as seen from an exported root given relative to the package directory ("" = the package
         directory itself; a file path = a single exported file)"""
         files = []
-        for fid, rel, _ in TREE_FILES:
+        for fid, rel, _ in self.files:
             if rootrel == "":
                 inside, r = not rel.startswith("../"), rel
             elif rel == rootrel:
@@ -175,14 +190,14 @@ class Tree:
                 "sdm_abs": (SharedDataMiddleware(fallback, {"/static": self.root}, cache=False), "/static/"),
                 "sdm_slash": (SharedDataMiddleware(fallback, {"/": self.root}), "/"),
                 "sdm_rel": (rel, "/static/"),
-                "sdm_pkg": (SharedDataMiddleware(fallback, {"/pkg": (PKG, "root")}), "/pkg/"),
+                "sdm_pkg": (SharedDataMiddleware(fallback, {"/pkg": (self.pkg, "root")}), "/pkg/"),
                 "sdm_nocache": (SharedDataMiddleware(fallback, {"/static": self.root}, cache=False,
                                                      fallback_mimetype="text/x-verif"), "/static/"),
                 "sdm_timeout": (SharedDataMiddleware(fallback, {"/static": self.root}, cache_timeout=1), "/static/"),
                 "sdm_disallow": (SharedDataMiddleware(fallback, {"/static": self.root}, disallow="*.txt"), "/static/"),
                 "sdm_file": (SharedDataMiddleware(fallback, {"/robots.txt": os.path.join(self.root, "a.txt")}), "/robots.txt/"),
-                "sdm_pkg_sub": (SharedDataMiddleware(fallback, {"/pkgsub": (PKG, "root/sub")}), "/pkgsub/"),
-                "sdm_pkg_all": (SharedDataMiddleware(fallback, [("/all", (PKG, ""))]), "/all/"),
+                "sdm_pkg_sub": (SharedDataMiddleware(fallback, {"/pkgsub": (self.pkg, "root/sub")}), "/pkgsub/"),
+                "sdm_pkg_all": (SharedDataMiddleware(fallback, [("/all", (self.pkg, ""))]), "/all/"),
             }
         return self.apps
 
@@ -398,3 +413,89 @@ def bytes_directory_probe(tree: Tree) -> dict:
         except Exception as e:
             out[name] = type(e).__name__
     return out
+
+
+# ------------------------------------------------------------------------------- reinterpretable spellings
+# Path texts that still spell dots / separators / home directories in some OTHER notation after the server's
+# single percent-decoding.  A helper that decodes, normalises or expands once more after its containment test
+# would reach a sentinel outside the root.  Each text is requested over two trees: one where the literal name
+# exists inside the root (tree "L"), one where it does not (tree "N"); the sentinels outside exist in both.
+DOTS_RAW = ["%252e%252e", "%252E%252E", ".%252e", "%252e.", "%25252e%25252e", "%c0%ae%c0%ae", "%e0%80%ae%e0%80%ae",
+            "%ef%bc%8e%ef%bc%8e", "%e2%80%a4%e2%80%a4", "..%20", "..%2e", "..;", "..%2500", "%2e%2e%20", ".%20."]
+SEPS_RAW = ["/", "%252f", "%252F", "%255c", "%5c", "%c0%af", "%ef%bc%8f", "%e2%88%95", "%25c0%25af"]
+UPS_PLAIN = ["..%252f", "..%255c", "..%5c", "%2e%2e%255c", "%2e%2e%5c", "..%c0%af", "..%ef%bc%8f"]
+HOMES_RAW = ["~", "~root", "$HOME", "$%7bHOME%7d", "%25HOME%25", "%7b%7d", "%7b0%7d", "%257e", "~%2f..", "$PWD"]
+
+
+def reinterp_raws(tree: Tree, deep: bool):
+    """raw request targets (wire form).  Targets behind the spelled '..' / home: the sentinel's own basename, the
+    basename of a file that also exists inside, a sentinel directory, and (deep) two levels up."""
+    from urllib.parse import quote
+
+    tails = ["secret.txt", "a.txt", "rootx/secret.txt"]
+    out = []
+    for d in DOTS_RAW:
+        for sep in SEPS_RAW:
+            for tail in tails[:2]:
+                out.append(d + sep + tail)
+        out.append(d + "/" + tails[2])
+        out.append("sub/" + d + "/" + d + "/secret.txt")
+        out.append(d)
+        out.append(d + "/")
+        if deep:
+            for sep in SEPS_RAW:
+                out.append(d + sep + d + sep + "secret.txt")
+                out.append("sub/" + d + sep + "b.txt")
+    for up in UPS_PLAIN:
+        for tail in tails:
+            out.append(up + tail)
+        out.append(up + up + "secret.txt")
+    for h in HOMES_RAW:                      # HOME / PWD are pointed at the package directory while requesting
+        for tail in ("secret.txt", "a.txt", "root/../secret.txt"):
+            out.append(h + "/" + tail)
+        out.append(h)
+        out.append("sub/../" + h + "/secret.txt")
+    for s in tree.sentinel_paths()[:2]:      # an absolute sentinel path, encoded twice / with other separators
+        q1 = quote(s, safe="")
+        out += [quote(q1, safe=""), quote(quote(s, safe="/"), safe="/"), s.replace("/", "%255c"), s.replace("/", "%5c"),
+                quote(s.replace("/", "\uff0f"), safe=""), "file:" + quote(q1, safe=""), "file:%252f%252f" + quote(q1, safe="")]
+    for t in ("secret.txt.", "secret.txt%20", "a.txt%2520", "a.txt::$DATA", "a.txt%2500", "A.TXT", "a.txt;x", "a.txt%3f",
+              "a.txt%23", "sub%252fb.txt", "sub%255cb.txt", "sub%5cb.txt"):
+        out.append(t)
+    seen, uniq = set(), []
+    for r in out:
+        if r not in seen:
+            seen.add(r)
+            uniq.append(r)
+    return uniq
+
+
+def literal_files(raws, first_id=200):
+    """the names the raws spell after ONE percent-decoding, as files inside the root (where such a file can exist)"""
+    out, seen = [], set()
+    for raw in raws:
+        t = unquote_to_bytes(raw).decode("utf-8", "replace")
+        segs = t.split("/")
+        if not t or t in seen or t.startswith("/") or any(sg in ("", ".", "..") for sg in segs) or "\x00" in t:
+            continue
+        if any(len(sg.encode("utf-8", "surrogatepass")) > 200 for sg in segs):
+            continue
+        seen.add(t)
+        out.append((first_id + len(out), "root/" + t, True))
+    return out
+
+
+class _Where:
+    """just the sentinel locations of a tree that is not built yet"""
+
+    def __init__(self, base, pkg):
+        self.base, self.pkgdir = base, os.path.join(base, pkg)
+
+    sentinel_paths = Tree.sentinel_paths
+
+
+def literal_tree(base: str, deep: bool):
+    """-> (tree in which every spelling exists literally inside the root, its raw targets)"""
+    raws = reinterp_raws(_Where(base, PKG + "_lit"), deep)
+    # ids 8 and 9 (files named "~" and "%2e%2e") make room for directories of those names
+    return Tree(base, extra=literal_files(raws), drop=(8, 9), pkg=PKG + "_lit"), raws
